@@ -189,71 +189,8 @@ Proof.
       * intros r Hx. apply A3. intros Hy. apply Hx. apply in_l2s. exact Hy.
 Qed.
 
-Definition is_add_record (a : action) : Prop :=
-  match a with AddRecord _ _ _ | BulkAddRecord _ _ _ => True | _ => False end.
-
-(* a crash point is covered when nothing but the schema clone has run in the current event, or the current event is
-   the undo-first action [Bulk]AddRecord (any point inside it) *)
-Definition covered_point (cur : option event) (done : list mstep) : Prop :=
-  Forall (fun m => m = MSave) done \/ exists a, cur = Some (EDoc a) /\ is_add_record a.
-
-Section Run2.
-  Variable ord : name -> list name.
-  Variable s0 : doc.
-  Variable u0 : list action.
-
-  Lemma rollback_inside_add st a l rest st' :
-    Inv ord s0 u0 st -> is_add_record a ->
-    event_steps ord (ms_doc st) (EDoc a) = l ++ rest -> exec_all st l = Some st' -> l ≠ [] ->
-    rollback ord (length u0) st' = Some s0.
-  Proof.
-    intros (Hw & Hsv & ua & Hu & Hre) Ha Hsteps Hex Hl. simpl in Hsteps. unfold doc_steps in Hsteps.
-    assert (exists t rows vals, normalize a = BulkAddRecord t rows vals) as (t & rows & vals & Hn)
-      by (destruct a; try contradiction; simpl; eauto).
-    rewrite Hn in Hsteps.
-    destruct (d_tables (ms_doc st) !! t) as [tb|] eqn:Ht.
-    2: { exfalso. unfold steps_of in Hsteps. rewrite Ht in Hsteps. destruct l as [|m l]; [contradiction|].
-         simpl in Hsteps. injection Hsteps as <- _. simpl in Hex. discriminate. }
-    destruct (wf_schema_of_table _ _ _ Hw Ht) as (sc & Hs & _).
-    rewrite <- (mstate_eta st), Hsv in Hex.
-    destruct (add_prefix ord _ t tb sc rows vals _ _ l rest st' Hw Ht Hs Hsteps Hl Hex) as (H1 & H2 & H3 & H4).
-    unfold rollback, restore_schema. rewrite H1, H3, Hu, <- app_assoc, drop_app, rev_app_distr. simpl.
-    rewrite H4. exact Hre.
-  Qed.
-
-  Theorem rollback_covered es : forall st k st_k cur done,
-    Inv ord s0 u0 st -> Forall no_replace_ev es ->
-    run_until_crash ord st es k = Crashed st_k cur done ->
-    ms_pending st_k = [] -> covered_point cur done ->
-    rollback ord (length u0) st_k = Some s0.
-  Proof.
-    induction es as [|e es IH]; intros st k st_k cur done HI Hnr H Hp Hcov; simpl in H.
-    - destruct k; [|discriminate]. injection H as <- <- <-. apply (rollback_inv ord s0 u0 st); auto. left. exact (proj1 (proj2 HI)).
-    - inversion Hnr as [|? ? Hnr1 Hnr2]; subst.
-      destruct (exec_upto st (event_steps ord (ms_doc st) e) k []) as [[st' dn] r] eqn:E.
-      destruct (exec_upto_spec _ _ _ _ _ _ _ E) as (l & rest & Hdn & Hsteps & Hex & Hrest). simpl in Hdn. subst dn.
-      destruct r as [k'|].
-      + rewrite (Hrest (ltac:(eauto))), app_nil_r in Hsteps. subst l.
-        destruct (run_pending _ _ _ _ _ _ _ H) as (p2 & Hp2). rewrite Hp in Hp2. symmetry in Hp2. apply app_eq_nil in Hp2 as [Hp' _].
-        destruct (exec_all_pending _ _ _ Hex) as (p1 & Hp1). rewrite Hp' in Hp1. symmetry in Hp1. apply app_eq_nil in Hp1 as [Hp0 _].
-        eapply IH; [eapply event_complete; eauto|exact Hnr2|exact H|exact Hp|exact Hcov].
-      + injection H as <- <- <-. destruct Hcov as [Hdone|(a & [= ->] & Ha)].
-        * destruct (exec_saves _ _ _ Hdone Hex) as (H1 & H2 & H3).
-          apply (rollback_inv ord s0 u0 st); auto. rewrite (proj1 (proj2 HI)) in H3. exact H3.
-        * destruct l as [|m l'] eqn:El.
-          -- simpl in Hex. injection Hex as <-. apply (rollback_inv ord s0 u0 st); auto. left. exact (proj1 (proj2 HI)).
-          -- rewrite <- El in *. eapply rollback_inside_add; eauto. rewrite El. discriminate.
-  Qed.
-End Run2.
-
-Theorem rollback_partial_covered ord s u0 es k st cur done :
-  wf s -> Forall no_replace_ev es ->
-  run_until_crash ord (init_state s u0) es k = Crashed st cur done ->
-  ms_pending st = [] -> covered_point cur done ->
-  rollback ord (length u0) st = Some s.
-Proof. intros Hw. apply rollback_covered. apply Inv_init. exact Hw. Qed.
 (* ---------------------------------------------------------------------------------------------------------- *)
-(* the repaired BulkUpdateRecord: every crash point inside it is rolled back by the undo it appended first *)
+(* BulkUpdateRecord (undo-first since 6f648c6): every crash point inside it is rolled back by the undo it appended *)
 Definition cellstep2 (t : name) (rows : list rowid) (cs : list name) (m : mstep) : Prop :=
   exists c r v, m = MSetCell t c r v /\ r ∈ rows /\ c ∈ cs.
 
@@ -281,19 +218,19 @@ Proof.
   - apply elem_of_list_fmap. exists cv. split; [reflexivity|apply elem_of_list_In; exact Hcv].
 Qed.
 
-Theorem update_repaired_rolled_back ord d t rows vals u p l rest st' :
-  wf d -> update_repaired d t rows vals = l ++ rest -> l ≠ [] ->
+Theorem update_prefix ord d t rows vals u p l rest st' :
+  wf d -> steps_of ord d (BulkUpdateRecord t rows vals) = l ++ rest -> l ≠ [] ->
   exec_all (MState d u p None) l = Some st' ->
   exists a, ms_undo st' = u ++ [a] /\ ms_pending st' = p /\ ms_saved st' = None /\
             apply_doc ord (ms_doc st') a = Some d.
 Proof.
-  intros Hw Hsteps Hl Hex. unfold update_repaired in Hsteps.
+  intros Hw Hsteps Hl Hex. unfold steps_of in Hsteps.
   destruct (d_tables d !! t) as [tb|] eqn:Ht.
   2: { destruct l as [|m l]; [contradiction|]. simpl in Hsteps. injection Hsteps as <- _. simpl in Hex. discriminate. }
   destruct (wf_schema_of_table _ _ _ Hw Ht) as (sc & Hs & Hwt).
   destruct (bool_decide (Forall _ rows)) eqn:Er.
   2: { destruct l as [|m l]; [contradiction|]. simpl in Hsteps. injection Hsteps as <- _. simpl in Hex. discriminate. }
-  apply bool_decide_eq_true in Er. unfold update_steps_repaired in Hsteps.
+  apply bool_decide_eq_true in Er. unfold update_steps in Hsteps.
   destruct (bool_decide (length (known_prefix tb vals) = length vals)) eqn:Ek.
   2: { destruct l as [|m l]; [contradiction|]. simpl in Hsteps. injection Hsteps as <- _. simpl in Hex. discriminate. }
   apply bool_decide_eq_true in Ek. apply known_prefix_len in Ek.
@@ -325,3 +262,86 @@ Proof.
     + rewrite col_writes_notin by (rewrite update_undo_fst by exact Ek; exact Hcv).
       rewrite (HF2 tb c Hcv), Hc in Hk. injection Hk as <-. reflexivity.
 Qed.
+
+Definition is_add_record (a : action) : Prop :=
+  match a with AddRecord _ _ _ | BulkAddRecord _ _ _ => True | _ => False end.
+Definition is_update_record (a : action) : Prop :=
+  match a with UpdateRecord _ _ _ | BulkUpdateRecord _ _ _ => True | _ => False end.
+(* the doc actions that append their undo before their first mutation *)
+Definition is_undo_first (a : action) : Prop := is_add_record a \/ is_update_record a.
+
+(* a crash point is covered when nothing but the schema clone has run in the current event, or the current event is
+   one of the undo-first actions [Bulk]AddRecord, [Bulk]UpdateRecord (any point inside it) *)
+Definition covered_point (cur : option event) (done : list mstep) : Prop :=
+  Forall (fun m => m = MSave) done \/ exists a, cur = Some (EDoc a) /\ is_undo_first a.
+
+Section Run2.
+  Variable ord : name -> list name.
+  Variable s0 : doc.
+  Variable u0 : list action.
+
+  Lemma rollback_inside_add st a l rest st' :
+    Inv ord s0 u0 st -> is_add_record a ->
+    event_steps ord (ms_doc st) (EDoc a) = l ++ rest -> exec_all st l = Some st' -> l ≠ [] ->
+    rollback ord (length u0) st' = Some s0.
+  Proof.
+    intros (Hw & Hsv & ua & Hu & Hre) Ha Hsteps Hex Hl. simpl in Hsteps. unfold doc_steps in Hsteps.
+    assert (exists t rows vals, normalize a = BulkAddRecord t rows vals) as (t & rows & vals & Hn)
+      by (destruct a; try contradiction; simpl; eauto).
+    rewrite Hn in Hsteps.
+    destruct (d_tables (ms_doc st) !! t) as [tb|] eqn:Ht.
+    2: { exfalso. unfold steps_of in Hsteps. rewrite Ht in Hsteps. destruct l as [|m l]; [contradiction|].
+         simpl in Hsteps. injection Hsteps as <- _. simpl in Hex. discriminate. }
+    destruct (wf_schema_of_table _ _ _ Hw Ht) as (sc & Hs & _).
+    rewrite <- (mstate_eta st), Hsv in Hex.
+    destruct (add_prefix ord _ t tb sc rows vals _ _ l rest st' Hw Ht Hs Hsteps Hl Hex) as (H1 & H2 & H3 & H4).
+    unfold rollback, restore_schema. rewrite H1, H3, Hu, <- app_assoc, drop_app, rev_app_distr. simpl.
+    rewrite H4. exact Hre.
+  Qed.
+
+  Lemma rollback_inside_update st a l rest st' :
+    Inv ord s0 u0 st -> is_update_record a ->
+    event_steps ord (ms_doc st) (EDoc a) = l ++ rest -> exec_all st l = Some st' -> l ≠ [] ->
+    rollback ord (length u0) st' = Some s0.
+  Proof.
+    intros (Hw & Hsv & ua & Hu & Hre) Ha Hsteps Hex Hl. simpl in Hsteps. unfold doc_steps in Hsteps.
+    assert (exists t rows vals, normalize a = BulkUpdateRecord t rows vals) as (t & rows & vals & Hn)
+      by (destruct a; try contradiction; simpl; eauto).
+    rewrite Hn in Hsteps. rewrite <- (mstate_eta st), Hsv in Hex.
+    destruct (update_prefix ord _ t rows vals _ _ l rest st' Hw Hsteps Hl Hex) as (a' & H3 & H2 & H1 & H4).
+    unfold rollback, restore_schema. rewrite H1, H3, Hu, <- app_assoc, drop_app, rev_app_distr. simpl.
+    rewrite H4. exact Hre.
+  Qed.
+
+  Theorem rollback_covered es : forall st k st_k cur done,
+    Inv ord s0 u0 st -> Forall no_replace_ev es ->
+    run_until_crash ord st es k = Crashed st_k cur done ->
+    ms_pending st_k = [] -> covered_point cur done ->
+    rollback ord (length u0) st_k = Some s0.
+  Proof.
+    induction es as [|e es IH]; intros st k st_k cur done HI Hnr H Hp Hcov; simpl in H.
+    - destruct k; [|discriminate]. injection H as <- <- <-. apply (rollback_inv ord s0 u0 st); auto. left. exact (proj1 (proj2 HI)).
+    - inversion Hnr as [|? ? Hnr1 Hnr2]; subst.
+      destruct (exec_upto st (event_steps ord (ms_doc st) e) k []) as [[st' dn] r] eqn:E.
+      destruct (exec_upto_spec _ _ _ _ _ _ _ E) as (l & rest & Hdn & Hsteps & Hex & Hrest). simpl in Hdn. subst dn.
+      destruct r as [k'|].
+      + rewrite (Hrest (ltac:(eauto))), app_nil_r in Hsteps. subst l.
+        destruct (run_pending _ _ _ _ _ _ _ H) as (p2 & Hp2). rewrite Hp in Hp2. symmetry in Hp2. apply app_eq_nil in Hp2 as [Hp' _].
+        destruct (exec_all_pending _ _ _ Hex) as (p1 & Hp1). rewrite Hp' in Hp1. symmetry in Hp1. apply app_eq_nil in Hp1 as [Hp0 _].
+        eapply IH; [eapply event_complete; eauto|exact Hnr2|exact H|exact Hp|exact Hcov].
+      + injection H as <- <- <-. destruct Hcov as [Hdone|(a & [= ->] & Ha)].
+        * destruct (exec_saves _ _ _ Hdone Hex) as (H1 & H2 & H3).
+          apply (rollback_inv ord s0 u0 st); auto. rewrite (proj1 (proj2 HI)) in H3. exact H3.
+        * destruct l as [|m l'] eqn:El.
+          -- simpl in Hex. injection Hex as <-. apply (rollback_inv ord s0 u0 st); auto. left. exact (proj1 (proj2 HI)).
+          -- rewrite <- El in *. destruct Ha as [Ha|Ha];
+               [eapply rollback_inside_add|eapply rollback_inside_update]; eauto; rewrite El; discriminate.
+  Qed.
+End Run2.
+
+Theorem rollback_partial_covered ord s u0 es k st cur done :
+  wf s -> Forall no_replace_ev es ->
+  run_until_crash ord (init_state s u0) es k = Crashed st cur done ->
+  ms_pending st = [] -> covered_point cur done ->
+  rollback ord (length u0) st = Some s.
+Proof. intros Hw. apply rollback_covered. apply Inv_init. exact Hw. Qed.
